@@ -23,6 +23,7 @@ from pathlib import Path
 CODE = {
     "Print": "do_print()", "PrintErr": "do_print_err()", "CloseOut": "close_out()", "CloseErr": "close_err()",
     "CloseIn": "close_in()", "SetOut": "set_out()", "ReadIn": "read_in()", "LogCheck": "log_check()",
+    "LogEmit": "log_emit()",
     "SeedNone": "seed_none()", "Draw": "draw()", "DrawInst": "draw_inst()", "Raise": "do_raise()", "Bump": "bump()",
     "ReadCounter": "read_counter()",
 }
@@ -45,6 +46,7 @@ def timeout_call(kind, *a):
         "log_early": (f"t_log_early({a[0] if a else 50}, {d})", [("LogDisable", a[0] if a else 50)], []),
         "log_both": (f"t_log_both({a[0] if a else 20}, {d}, {a[1] if len(a) > 1 else 50})",
                      [("LogDisable", a[0] if a else 20)], [("LogDisable", a[1] if len(a) > 1 else 50)]),
+        "log_emit_late": (f"t_log_emit_late({d}, {a[0] if a else 50})", [], [("LogDisable", a[0] if a else 50), ("LogEmit",)]),
         "close_out_late": (f"t_close_out_late({d})", [], [("CloseOut",)]),
         "close_err_early": (f"t_close_err_early({d})", [("CloseErr",)], []),
         "set_out_late": (f"t_set_out_late({d})", [], [("SetOut",)]),
@@ -58,7 +60,7 @@ def timeout_call(kind, *a):
     return table[kind]
 
 
-TIMEOUT_KINDS = ["log_late", "log_early", "log_both", "close_out_late", "close_err_early", "set_out_late",
+TIMEOUT_KINDS = ["log_late", "log_early", "log_both", "log_emit_late", "close_out_late", "close_err_early", "set_out_late",
                  "close_in_late", "os_close_late", "os_close_early", "seed_late", "mixed"]
 
 
@@ -184,6 +186,9 @@ class Session:
         # TestCaseExecutor wraps the execution in FilesystemIsolation() when this is set
         self.config.configuration.filesystem_isolation = bool(seq.get("fsiso", False))
         self.module.COUNTER = 0
+        # (logging.disable above cleared every logger's cache); optionally start with a warm, consistent cache
+        if seq.get("warm_log"):
+            self.module.LOG.isEnabledFor(logging.ERROR)
         self.randomness.RNG.seed(PYN_SEED)  # also registers RNG with the tracked instances
         random.seed(2)
         self.module.R.seed(3)
@@ -220,6 +225,7 @@ class Session:
             "inst_rng": self._rng(self.module.R.getstate()),
             "pyn_rng": self._rng(self.randomness.RNG.getstate()),
             "counter": int(self.module.COUNTER),
+            "log_cache": self.module.LOG._cache.get(logging.ERROR),  # peeked, not computed
         }
 
     def _pyn_snapshot(self):
@@ -232,7 +238,8 @@ class Session:
             except OSError:
                 fds.append(None)
         return {"out": sys.stdout, "err": sys.stderr, "in": sys.stdin, "fds": fds,
-                "logd": logging.root.manager.disable, "rng": self.randomness.RNG.getstate()}
+                "logd": logging.root.manager.disable, "rng": self.randomness.RNG.getstate(),
+                "loggers": logger_behaviour()}
 
     def execute(self, acts):
         import libcst as cst
@@ -317,6 +324,30 @@ class Session:
         return {"init": init, "steps": steps, "oracle": viol}
 
 
+LEVELS = (logging.DEBUG, logging.INFO, logging.WARNING, logging.ERROR, logging.CRITICAL)
+
+
+def _would_log(lg, level) -> bool:
+    """What lg.isEnabledFor(level) answers, computed WITHOUT filling the logger's cache."""
+    if lg.disabled:
+        return False
+    cached = lg._cache.get(level)
+    if cached is not None:
+        return cached
+    if lg.manager.disable >= level:
+        return False
+    return level >= lg.getEffectiveLevel()
+
+
+def logger_behaviour():
+    """Effective behaviour of every logger that exists (root, Pynguin's, the module's, ...)."""
+    res = {"root": tuple(_would_log(logging.root, lv) for lv in LEVELS)}
+    for name, lg in list(logging.root.manager.loggerDict.items()):
+        if isinstance(lg, logging.Logger):
+            res[name] = tuple(_would_log(lg, lv) for lv in LEVELS)
+    return res
+
+
 def compare_snapshots(b, a):
     """S, part 1: Pynguin's streams, descriptors, logging state and random stream are as before."""
     out = []
@@ -335,6 +366,13 @@ def compare_snapshots(b, a):
             out.append((f"fds:fd{i}-changed", f"file descriptor {i} refers to another file after the execution"))
     if a["logd"] != b["logd"]:
         out.append(("logging:disable-level-leaked", f"logging.root.manager.disable is {a['logd']} after the execution, was {b['logd']}"))
+    changed = sorted(n for n in b["loggers"] if n in a["loggers"] and a["loggers"][n] != b["loggers"][n])
+    if changed and a["logd"] == b["logd"]:
+        kind = "pynguin" if any(n.startswith("pynguin") for n in changed) else "sut"
+        out.append((f"logging:logger-behaviour-changed:{kind}",
+                    f"isEnabledFor of existing logger(s) {changed[:4]} answers differently after the execution "
+                    f"(e.g. {changed[0]}: {b['loggers'][changed[0]]} -> {a['loggers'][changed[0]]} for DEBUG..CRITICAL) "
+                    "although logging.root.manager.disable is as before"))
     if a["rng"] != b["rng"]:
         out.append(("rng:pynguin-stream-changed", "the state of pynguin.utils.randomness.RNG changed during the execution"))
     return out
@@ -350,7 +388,7 @@ def gen_act(rng):
     if c < 0.44:
         return (rng.choice(["OsClose", "OsFstat"]), rng.randrange(3))
     if c < 0.56:
-        return rng.choice([("LogDisable", rng.choice([0, 20, 40, 50])), ("LogCheck",)])
+        return rng.choice([("LogDisable", rng.choice([0, 20, 40, 50])), ("LogCheck",), ("LogEmit",), ("LogEmit",)])
     if c < 0.80:
         return rng.choice([("Seed", rng.choice(SEEDS)), ("SeedNone",), ("Draw",), ("Draw",), ("DrawInst",)])
     if c < 0.86:
@@ -366,7 +404,8 @@ def gen_sequence(rng):
         else:
             items.append(("Exec", [gen_act(rng) for _ in range(rng.choice([1, 2, 3, 4, 5]))]))
     return {"custom_out": False, "custom_err": False, "custom_in": rng.random() < 0.3,
-            "logd": rng.choice([0, 0, 10, 30, 50]), "fsiso": rng.random() < 0.3, "items": items}
+            "logd": rng.choice([0, 0, 10, 30, 50]), "fsiso": rng.random() < 0.3, "warm_log": rng.random() < 0.3,
+            "items": items}
 
 
 def gen_timeout_sequence(rng, kind=None):
